@@ -91,13 +91,14 @@ TOL_OPT = 1e-6
 
 def shards(tier, seed):
     if tier == 'quick':
-        n, nt, no = 16, 3, 4
+        n, nt, no, na = 16, 3, 4, 8
     else:
-        n, nt, no = 64, 6, 8
+        n, nt, no, na = 64, 6, 8, 24
     n = int(os.environ.get('OMV_C24_NSHARDS', n))      # development aid (sensitivity runs on a loaded machine)
     out = []
     for i in range(n):
-        out.append({'seed': seed * 100000 + i * 1000, 'n_totals': nt, 'n_opt': no, 'n_coupled': 3 * no, 'tier': tier,
+        out.append({'seed': seed * 100000 + i * 1000, 'n_totals': nt, 'n_opt': no, 'n_coupled': 3 * no,
+                    'n_arrow': na, 'tier': tier,
                     'child': (tier == 'thorough' and i % 8 == 0)})
     return out
 
@@ -109,6 +110,10 @@ def run_shard(shard, acc):
         run_case({'kind': 'opt', 'seed': shard['seed'] + 500 + k, 'tier': shard.get('tier', 'quick')}, acc)
     for k in range(shard.get('n_coupled', 0)):
         run_case({'kind': 'coupled', 'seed': shard['seed'] + 700 + k, 'tier': shard.get('tier', 'quick')}, acc)
+    for k in range(shard.get('n_arrow', 0)):
+        # every 4th case is the optimisation variant (short SLSQP run on a convex problem)
+        run_case({'kind': 'arrow', 'seed': shard['seed'] + 800 + k, 'opt': k % 4 == 3,
+                  'tier': shard.get('tier', 'quick')}, acc)
     if shard.get('child'):
         run_case({'kind': 'child', 'seed': shard['seed'] + 900, 'tier': shard.get('tier', 'quick')}, acc)
     nb = sum(v for k, v in acc.skipped.items() if k.startswith('both-twins-raise') or k.startswith('HARNESS'))
@@ -126,6 +131,8 @@ def run_case(case, acc):
         _case_opt(case, acc)
     elif case['kind'] == 'coupled':
         _case_coupled(case, acc)
+    elif case['kind'] == 'arrow':
+        _case_arrow(case, acc)
     else:
         _case_child(case, acc)
 
@@ -149,9 +156,56 @@ class RelMon:
         self.var_pruned = 0
         self.sys_asked = 0
         self.budget = budget
+        # total-jacobian context (family `arrow`): which kind of linear solve is in progress
+        self.cur = None            # (coloring kind of the _TotalJacInfo, direction of the current solve)
+        self.pruned_ctx = {}       # cur -> number of 'irrelevant system' answers
+        self.solves_ctx = {}       # cur -> number of linear solves started
+        self.tj_runs = {}          # coloring kind -> number of _TotalJacInfo.compute_totals executions
+        self.primary = {}          # (coloring kind, primary mode) -> executions
 
     def __enter__(self):
         from openmdao.utils.relevance import Relevance
+        from openmdao.core.total_jac import _TotalJacInfo
+        self._tj = _TotalJacInfo
+        self._o_tj = {k: _TotalJacInfo.__dict__[k] for k in ('compute_totals', 'single_input_setter',
+                                                             'simul_coloring_input_setter')}
+        mon0 = self
+
+        def _kind(tj):
+            if getattr(tj, 'simul_coloring', None) is None:
+                return 'uncolored'
+            modes = tuple(getattr(tj, 'modes', ()) or ())
+            return 'bidirectional' if len(modes) == 2 else 'colored-' + '+'.join(modes)
+
+        def compute_totals(slf, *a, **kw):
+            k = _kind(slf)
+            mon0.tj_runs[k] = mon0.tj_runs.get(k, 0) + 1
+            pk = (k, getattr(slf, 'mode', None))
+            mon0.primary[pk] = mon0.primary.get(pk, 0) + 1
+            mon0.cur = None
+            try:
+                return mon0._o_tj['compute_totals'](slf, *a, **kw)
+            finally:
+                mon0.cur = None
+
+        def single_input_setter(slf, idx, imeta, mode):
+            cur = (_kind(slf), mode)
+            if mon0.cur != ('*', cur):          # not reached through simul_coloring_input_setter
+                mon0.solves_ctx[cur] = mon0.solves_ctx.get(cur, 0) + 1
+            mon0.cur = cur
+            return mon0._o_tj['single_input_setter'](slf, idx, imeta, mode)
+
+        def simul_coloring_input_setter(slf, inds, itermeta, mode):
+            cur = (_kind(slf), mode)
+            mon0.solves_ctx[cur] = mon0.solves_ctx.get(cur, 0) + 1
+            mon0.cur = ('*', cur)
+            try:
+                return mon0._o_tj['simul_coloring_input_setter'](slf, inds, itermeta, mode)
+            finally:
+                mon0.cur = cur
+        _TotalJacInfo.compute_totals = compute_totals
+        _TotalJacInfo.single_input_setter = single_input_setter
+        _TotalJacInfo.simul_coloring_input_setter = simul_coloring_input_setter
         self._cls = Relevance
         self._o_sys = Relevance.__dict__['is_relevant_system']
         self._o_var = Relevance.__dict__['is_relevant']
@@ -162,6 +216,8 @@ class RelMon:
             mon.sys_asked += 1
             if not r:
                 mon.sys_pruned += 1
+                if mon.cur is not None:
+                    mon.pruned_ctx[mon.cur] = mon.pruned_ctx.get(mon.cur, 0) + 1
             if mon.sys_asked > mon.budget:
                 raise WorkBudgetExceeded('%d relevance queries' % mon.sys_asked)
             return r
@@ -178,6 +234,8 @@ class RelMon:
     def __exit__(self, *a):
         self._cls.is_relevant_system = self._o_sys
         self._cls.is_relevant = self._o_var
+        for k, f in self._o_tj.items():
+            setattr(self._tj, k, f)
         return False
 
 
@@ -216,7 +274,14 @@ class SeedFailureMonitor(FailureMonitor):
                 full = slf._system()._relevance.get_full_seeds()
             except Exception:
                 pass
-            mon.failures.append((type(slf).__name__, msg, seeds, mixed, full))
+            incol = False
+            try:
+                # raised while a dynamic total coloring computes its sparsity: the sub-jacobians are re-randomised
+                # at every matrix-vector product, an iterative solver cannot converge there (by construction)
+                incol = slf._system()._problem_meta.get('coloring_randgen') is not None
+            except Exception:
+                pass
+            mon.failures.append((type(slf).__name__, msg, seeds, mixed, full, incol))
             return mon._orig(slf, msg)
         Solver.report_failure = report_failure
         return self
@@ -1132,6 +1197,329 @@ def _case_coupled(case, acc):
         acc.ok(fingerprint(tags + [sorted(s['M']), sorted(s['N']), s['of'], s['wrt']]), nontrivial=(ps + pv) > 0,
                sample={'seed': case['seed'], 'kind': 'coupled', 'tags': tags, 'systems_pruned': ps,
                        'vars_pruned': pv})
+
+
+# =====================================================================================================
+# family `arrow`: driver total colorings (forward / reverse / bidirectional) over components with different
+# relevance footprints (omv/gen/c24_arrow.py)
+# =====================================================================================================
+def _arrow_blocks(Jd, rows, cols):
+    """assemble a dense matrix from a return_format='dict' result; rows/cols: lists of names"""
+    return np.vstack([np.hstack([np.atleast_2d(np.asarray(Jd[r][c], dtype=float)) for c in cols]) for r in rows])
+
+
+def _arrow_explicit_plan(s):
+    """explicit of/wrt request that is NOT the driver's (no coloring; different relevance sets: the dead end and
+    consumed intermediate outputs become responses).  Declared design-variable indices also apply to explicit wrt
+    (documented behaviour); responses that carry indices are left out."""
+    declared = {r['name']: r for r in s['resps']}
+    of = []
+    for c in s['comps']:
+        if c['kind'] == 'par':
+            continue
+        o = c['out']
+        if o in declared and declared[o]['idx'] is not None:
+            continue
+        if c['dead'] or o not in declared or c['kind'] == 'row' or len(of) < 2:
+            of.append(o)
+    wrt = [d for d in s['dvs']]
+    if len(wrt) > 1:
+        wrt = wrt[1:] + wrt[:1]
+    return [{'name': o, 'idx': None} for o in of], wrt
+
+
+def _run_arrow_twin(s, norel):
+    import contextlib
+    import io
+    from omv.gen import c24_arrow as A
+    out = {'exc': None, 'failures': [], 'res': {}, 'calls': None, 'pruned': (0, 0), 'active': None, 'mon': None,
+           'coloring': None, 'success': None}
+    log = CallLog()
+    prob = None
+    with NoRelevance(norel), RelMon() as mon, SeedFailureMonitor() as fmon:
+        try:
+            colobj = None
+            dkw = dict(num_full_jacs=s['num_full_jacs'], direct=s['direct'], show_summary=False, show_sparsity=False)
+            if s['coloring'].startswith('fixed'):
+                # a donor problem computes the coloring (same relevance setting as the twin); the twin proper uses
+                # it as a fixed coloring (Coloring object / file)
+                donor = A.build_arrow(s)
+                donor.driver.declare_coloring(**dkw)
+                donor.setup(mode=s['mode'])
+                A.set_point(donor, s, 1)
+                donor.run_model()
+                donor.compute_totals()
+                colobj = donor.driver._coloring_info.coloring
+                if colobj is not None and s['coloring'] == 'fixed-file':
+                    fname = os.path.abspath('c24_arrow_coloring_%d.pkl' % int(bool(norel)))
+                    colobj.save(fname)
+                    colobj = fname
+                donor.cleanup()
+            # the donor's solves are not part of the observation
+            mon.cur, mon.pruned_ctx, mon.solves_ctx, mon.tj_runs, mon.primary = None, {}, {}, {}, {}
+            pre = (mon.sys_pruned, mon.var_pruned)
+            prob = A.build_arrow(s, hook=log)
+            if colobj is None:
+                prob.driver.declare_coloring(**dkw)
+                out['coloring'] = 'dynamic'
+            else:
+                prob.driver.use_fixed_coloring(colobj)
+                out['coloring'] = s['coloring']
+            with contextlib.redirect_stdout(io.StringIO()):
+                prob.setup(mode=s['mode'])
+                A.set_point(prob, s, 0)
+                names_r = [r['name'] for r in s['resps'] if r['kind'] == 'obj'] + \
+                    [r['name'] for r in s['resps'] if r['kind'] == 'con']
+                names_d = [d['name'] for d in s['dvs']]
+                allout = [c['out'] for c in s['comps']]
+                if s['opt']:
+                    r = prob.run_driver()
+                    out['success'] = bool(getattr(r, 'success', not r))
+                    out['iters'] = int(prob.driver.iter_count)
+                    for n in names_d + allout:
+                        out['res']['val:' + n] = np.array(prob.get_val(n)).ravel()
+                    out['res']['totals-at-optimum'] = _arrow_blocks(prob.compute_totals(return_format='dict'),
+                                                                    names_r, names_d)
+                else:
+                    prob.run_model()
+                    out['res']['values'] = np.concatenate([np.array(prob.get_val(n)).ravel() for n in allout])
+                    out['res']['totals-problem'] = _arrow_blocks(prob.compute_totals(return_format='dict'),
+                                                                 names_r, names_d)
+                    out['res']['totals-driver'] = _arrow_blocks(prob.driver._compute_totals(return_format='dict'),
+                                                                names_r, names_d)
+                    eof, ewrt = _arrow_explicit_plan(s)
+                    if eof:
+                        Jd = prob.compute_totals(of=[o['name'] for o in eof], wrt=[w['name'] for w in ewrt],
+                                                 return_format='dict')
+                        out['res']['totals-explicit'] = _arrow_blocks(Jd, [o['name'] for o in eof],
+                                                                      [w['name'] for w in ewrt])
+                    A.set_point(prob, s, 1)
+                    prob.run_model()
+                    out['res']['totals-driver-2nd-point'] = _arrow_blocks(
+                        prob.driver._compute_totals(return_format='dict'), names_r, names_d)
+                    out['res']['values-after'] = np.concatenate([np.array(prob.get_val(n)).ravel() for n in allout])
+            out['failures'] = [f for f in fmon.failures if not f[5]]
+            out['sparsity-failures'] = sum(1 for f in fmon.failures if f[5])
+            out['active'] = prob.model._relevance._active
+            col = prob.driver._coloring_info.coloring
+            out['colmodes'] = tuple(col.modes()) if col is not None else ()
+            out['pruned'] = (mon.sys_pruned - pre[0], mon.var_pruned - pre[1])
+        except Exception as e:
+            if os.environ.get('OMV_DEBUG'):
+                import traceback
+                traceback.print_exc()
+            out['exc'] = e
+            out['pruned'] = (mon.sys_pruned, mon.var_pruned)
+        finally:
+            out['mon'] = {'pruned_ctx': dict(mon.pruned_ctx), 'solves_ctx': dict(mon.solves_ctx),
+                          'tj_runs': dict(mon.tj_runs), 'primary': dict(mon.primary)}
+            out['calls'] = log
+            if prob is not None:
+                try:
+                    prob.cleanup()
+                except Exception:
+                    pass
+    return out
+
+
+def _case_arrow(case, acc):
+    from omv.gen import c24_arrow as A
+    rng = random.Random(case['seed'])
+    s = A.gen_arrow_spec(rng, opt=bool(case.get('opt')))
+    tags = A.arrow_tags(s)
+    iterative = s['root_ln'] in ('lnbgs', 'lnbj', 'krylov') or \
+        (s['groups'] and any(g in ('lnbgs', 'krylov') for g in s['grp_ln']))
+    tol = TOL_ITER if iterative else TOL_DIRECT
+    on = _run_arrow_twin(s, norel=False)
+    off = _run_arrow_twin(s, norel=True)
+    if off['pruned'] != (0, 0) or (off['exc'] is None and off['active'] is not False):
+        acc.skip('HARNESS-disabled-twin-still-prunes')
+        return
+    acc.count('obs:twin-off-verified')
+    runs = on['mon']['tj_runs']
+    ckind = 'bidirectional' if runs.get('bidirectional') else \
+        ('+'.join(sorted(k for k in runs if k.startswith('colored-'))) or 'none')
+
+    def KEY(what):
+        if what.startswith('SOLVERFAIL|'):
+            w = what.split('|')
+            return '%s:solver-fails-only-with-relevance:arrow:%s' % (w[1], w[2])
+        return 'arrow:%s:coloring=%s:mode=%s' % (what, ckind, s['mode'])
+    if isinstance(on['exc'], WorkBudgetExceeded):
+        acc.skip('work-budget-exceeded (nested iterative solvers looping to maxiter)')
+        return
+    if off['exc'] is not None and on['exc'] is not None:
+        acc.skip('both-twins-raise' if type(off['exc']) is type(on['exc']) else 'both-twins-raise-differently')
+        if os.environ.get('OMV_DEBUG'):
+            print('both raise', case, tags, repr(on['exc'])[:300], file=sys.stderr)
+        return
+    if off['exc'] is not None:
+        acc.skip('only-disabled-twin-raises')
+        return
+    if on['exc'] is not None:
+        e = on['exc']
+        acc.viol(KEY(exc_key('raises-only-with-relevance', e)), '%s: %s [%s]' % (type(e).__name__, str(e)[:300],
+                                                                               ','.join(tags)), case)
+        return
+    if off['failures']:
+        acc.skip('solver-nonconvergence')
+        return
+    bad = []
+    names_r = [r for r in s['resps'] if r['kind'] == 'obj'] + [r for r in s['resps'] if r['kind'] == 'con']
+    if on['failures']:
+        kinds_f = sorted(set(f[0] for f in on['failures']))
+        _, jac0 = A.arrow_eval(s, s['points'][0])
+        dep_a = {}
+        for r in s['resps']:
+            dep_a[r['name']] = set(d['name'] for d in s['dvs']
+                                   if np.any(A.arrow_totals(s, jac0, [{'name': r['name'], 'idx': None}],
+                                                            [{'name': d['name'], 'idx': None}]) != 0.0))
+        fc = _fail_class(on['failures'], on.get('src2spec', {}), dep_a)
+        bad.append(('SOLVERFAIL|%s|%s' % (fc, '+'.join(kinds_f)), '',
+                    '%d solver failure report(s) with relevance enabled, none with relevance disabled: %s'
+                    % (len(on['failures']), on['failures'][0][1][:160])))
+    if s['opt']:
+        if not off['success']:
+            acc.skip('baseline-optimizer-failed')
+            return
+
+        def zof(res):
+            return np.concatenate([res['val:' + d['name']][d['idx'] if d['idx'] is not None else
+                                                           slice(None)] for d in s['dvs']])
+
+        def final_point(res):
+            pt = {k: np.array(v, float) for k, v in s['points'][0].items()}
+            for d in s['dvs']:
+                pt[d['name']] = res['val:' + d['name']]
+            return pt
+        zoff = zof(off['res'])
+        # baseline: the disabled twin's final design must be THE optimum (KKT on the closed-form model; the problem
+        # is convex with a strictly convex objective)
+        kres, kviol = A.arrow_kkt(s, final_point(off['res']))
+        if kres > 1e-6 or kviol > 1e-7:
+            acc.skip('baseline-optimizer-inexact')
+            if os.environ.get('OMV_DEBUG'):
+                print('baseline optimum not certified', case, kres, kviol, file=sys.stderr)
+            return
+        # closed-form totals at each twin's own final design
+        def own_ref(res):
+            vals, jac = A.arrow_eval(s, final_point(res))
+            return vals, A.arrow_totals(s, jac, names_r, s['dvs'])
+        voff, Joff_ref = own_ref(off['res'])
+        if _relerr(off['res']['totals-at-optimum'], Joff_ref) > TOL_REF or \
+                any(_relerr(off['res']['val:' + c['out']], voff[c['out']]) > 1e-9 for c in s['comps']):
+            acc.skip('baseline-differs-from-reference')
+            return
+        acc.count('obs:arrow-opt-twins')
+        acc.count('obs:opt-vs-exact-optimum')
+        zon = zof(on['res'])
+        e = _relerr(zon, zoff)
+        kon, von_ = A.arrow_kkt(s, final_point(on['res']))
+        if e > TOL_OPT and (kon > 1e-6 or von_ > 1e-7):
+            bad.append(('design-vars', '', 'final design differs from the disabled twin\'s (certified optimum): rel '
+                        '%.2e; KKT residual on the closed-form model %.2e, constraint violation %.2e (%s)'
+                        % (e, kon, von_, 'success' if on['success'] else 'optimizer reports failure')))
+        elif not on['success']:
+            # same point, different exit flag: termination criterion at round-off level, not a result difference
+            acc.count('obs:arrow-opt-exit-flag-differs-at-same-optimum')
+        von, Jon_ref = own_ref(on['res'])
+        for c in s['comps']:
+            e = _relerr(on['res']['val:' + c['out']], von[c['out']])
+            if e > 1e-9:
+                bad.append(('stale-output', '', 'output %s is not the value at the final design: rel %.2e'
+                            % (c['out'], e)))
+                break
+        acc.count('obs:totals-on-vs-off')
+        acc.count('obs:totals-vs-reference')
+        e = _relerr(on['res']['totals-at-optimum'], Jon_ref)
+        if e > TOL_REF:
+            bad.append(('wrong-totals-at-optimum', '', 'totals at the final design differ from the closed form: '
+                        'rel %.2e' % e))
+        if on.get('iters') != off.get('iters'):
+            acc.count('obs:opt-iteration-count-differs')
+    else:
+        refs = {}
+        v0, jac0 = A.arrow_eval(s, s['points'][0])
+        v1, jac1 = A.arrow_eval(s, s['points'][1])
+        J0 = A.arrow_totals(s, jac0, names_r, s['dvs'])
+        refs['totals-problem'] = J0
+        refs['totals-driver'] = J0
+        eof, ewrt = _arrow_explicit_plan(s)
+        if eof:
+            refs['totals-explicit'] = A.arrow_totals(s, jac0, eof, ewrt)
+        refs['totals-driver-2nd-point'] = A.arrow_totals(s, jac1, names_r, s['dvs'])
+        vref = np.concatenate([v0[c['out']] for c in s['comps']])
+        vref1 = np.concatenate([v1[c['out']] for c in s['comps']])
+        if _relerr(off['res']['values'], vref) > 1e-9 or _relerr(off['res']['values-after'], vref1) > 1e-9:
+            acc.skip('baseline-differs-from-reference')
+            return
+        for lab, Jr in refs.items():
+            if _relerr(off['res'][lab], Jr) > TOL_REF:
+                acc.skip('baseline-differs-from-reference')
+                if os.environ.get('OMV_DEBUG'):
+                    print('baseline differs', case, tags, lab, _relerr(off['res'][lab], Jr), file=sys.stderr)
+                return
+        acc.count('obs:values-on-vs-off')
+        if _relerr(on['res']['values'], off['res']['values']) > 1e-12 or \
+                _relerr(on['res']['values-after'], off['res']['values-after']) > 1e-12:
+            bad.append(('values', 'outputs', 'outputs differ between twins'))
+        for lab, Jr in refs.items():
+            Jon, Joff = on['res'][lab], off['res'][lab]
+            acc.count('obs:totals-on-vs-off')
+            acc.count('obs:totals-vs-reference')
+            e1, e2 = _relerr(Jon, Joff), _relerr(Jon, Jr)
+            if e1 > tol or e2 > TOL_REF:
+                Ja = np.asarray(Jon, dtype=float)
+                if Ja.shape == Jr.shape:
+                    with np.errstate(invalid='ignore'):
+                        D = ~np.isfinite(Ja) | (np.abs(Ja - Jr) > TOL_REF * max(1.0, np.max(np.abs(Jr))))
+                    mask = Jr != 0.0
+                    where = '+'.join(w for w, m in (('dependent-entries', np.any(D & mask)),
+                                                    ('zero-entries', np.any(D & ~mask))) if m) or 'entries'
+                else:
+                    where = 'shape'
+                bad.append(('wrong-' + lab, where, '%s differs between relevance-enabled twin and disabled twin '
+                            '(rel %.2e) / closed-form jacobian (rel %.2e)' % (lab, e1, e2)))
+    # ---- what was observed ---------------------------------------------------------------------------
+    acc.count('obs:arrow-twins')
+    ps, pv = on['pruned']
+    acc.count('obs:systems-pruned', ps)
+    acc.count('obs:vars-pruned', pv)
+    acc.count('obs:linearize-calls-saved', max(0, off['calls'].total('linearize') - on['calls'].total('linearize')))
+    m = on['mon']
+    for k, v in m['tj_runs'].items():
+        acc.count('obs:arrow-computes:%s' % k, v)
+    for (k, pm), v in m['primary'].items():
+        if k == 'bidirectional':
+            acc.count('obs:bidir-primary=%s' % pm, v)
+    for (k, md), v in m['solves_ctx'].items():
+        acc.count('obs:arrow-solves:%s:%s' % (k, md), v)
+    for (k, md), v in m['pruned_ctx'].items():
+        acc.count('obs:arrow-systems-pruned:%s:%s-solve' % (k, md), v)
+    if m['tj_runs'].get('bidirectional') != off['mon']['tj_runs'].get('bidirectional'):
+        acc.count('obs:arrow-twins-colored-differently')
+    if on['coloring'] != 'dynamic':
+        acc.count('obs:arrow-fixed-coloring')
+        acc.count('obs:arrow-%s' % on['coloring'])
+    elif s['coloring'] != 'dynamic' or not on.get('colmodes'):
+        acc.count('obs:arrow-coloring-deactivated')
+    acc.count('cell:arrow-mode=%s' % s['mode'])
+    acc.count('cell:arrow-root-ln=%s' % s['root_ln'])
+    acc.count('cell:arrow-shape=%s' % s['shape'])
+    acc.count('cell:arrow-%s' % ('direct' if s['direct'] else 'substitution'))
+    if bad:
+        first = True
+        for what, where, msg in bad[:4]:
+            acc.viol(KEY(what + (':' + where if where else '')), msg + ' [%s; %d systems pruned, colorings used: %s]'
+                     % (','.join(tags), ps, sorted(m['tj_runs'])), case, new_case=first)
+            first = False
+    else:
+        colored = any(k != 'uncolored' for k in m['tj_runs'])
+        acc.ok(fingerprint(tags), nontrivial=(ps + pv) > 0 and colored,
+               sample={'seed': case['seed'], 'kind': 'arrow', 'tags': tags, 'systems_pruned': ps,
+                       'coloring_modes': list(on.get('colmodes', ())),
+                       'computes': {k: v for k, v in m['tj_runs'].items()},
+                       'pruned_by_solve_kind': {'%s:%s' % k: v for k, v in m['pruned_ctx'].items()}})
 
 
 # =====================================================================================================
